@@ -404,6 +404,11 @@ def render_file(path, module, moddir, ctx):
     for pos, k in hidden.items():
         info.opaque_consts.append(k)
         edits.append(Edit(pos, pos, '#[verifier::external_body] '))
+    # `const X: &T = ..` (elided lifetime, 'static by the language rules): inside verus!{} the elision is rejected for
+    # associated constants, so the lifetime is written out (no change of meaning)
+    for m in re.finditer(r'\b(?:const|static)\s+\w+\s*:\s*&(?!\s*\')', src):
+        if not any(a <= m.start() < b for a, b in sc.drop_spans) and not in_comment_or_string(toks, m.end() - 1):
+            edits.append(Edit(m.end(), m.end(), "'static "))
     for d in sc.derives:
         inside_drop = any(a <= d.start < b for a, b in sc.drop_spans)
         if inside_drop:
@@ -844,6 +849,15 @@ def audit(info):
 
 
 INVARIANT_TYPES = ('Ps2Decoder', 'ScancodeSet1', 'ScancodeSet2', 'EventDecoder', 'Keyboard')
+
+
+def in_comment_or_string(toks, pos):
+    for t in toks:
+        if t.pos <= pos < t.pos + len(t.text):
+            return t.kind in ('lcomment', 'bcomment', 'str', 'char', 'rawstr')
+        if t.pos > pos:
+            break
+    return False
 
 
 def generic_subst(text, block, fo):
